@@ -11,3 +11,4 @@ import DoviModel.Props.C18
 import DoviModel.Props.C03
 import DoviModel.Props.C04
 import DoviModel.Props.C12
+import DoviModel.Props.C14
